@@ -107,18 +107,18 @@ Definition match_state (s : St) (o : ostate) : nat :=
 
 (* run the model along the events, comparing each outcome; code 100+i = the
    i-th event's outcome differs, 1..5 = final state differs, 6 = lengths *)
-Fixpoint check_from (tb : Table) (s : St) (evs : list Ev) (obs : list oval) (i : nat) (fin : ostate) : nat :=
+Fixpoint check_from (fx : fixes) (tb : Table) (s : St) (evs : list Ev) (obs : list oval) (i : nat) (fin : ostate) : nat :=
   match evs, obs with
   | [], [] => match_state s fin
   | e :: r, o :: r' =>
-      let '(s', m) := step_ev tb s e in
-      if match_out m o then check_from tb s' r r' (S i) fin else 100 + i
+      let '(s', m) := step_ev fx tb s e in
+      if match_out m o then check_from fx tb s' r r' (S i) fin else 100 + i
   | _, _ => 6
   end.
 Definition casety : Type := (list SD * list Ev * list oval * ostate)%type.
-Definition check_case (tb : Table) (c : casety) : nat :=
+Definition check_case (fx : fixes) (tb : Table) (c : casety) : nat :=
   let '(init, evs, obs, fin) := c in
-  check_from tb (fresh (map (@fresh_seg P Pay Tol Qc) init)) evs obs 0 fin.
+  check_from fx tb (fresh (map (@fresh_seg P Pay Tol Qc) init)) evs obs 0 fin.
 
 (* ---------------------------------------------------------------------
    segment-level histories: control points reassigned, length(error=,
@@ -137,23 +137,24 @@ Definition with_c1 (g : Seg) (z : P) : Seg :=
               (match spay (sd g) with _ :: _ :: r => fst z :: snd z :: r | l => l end))
         (scache g).
 Definition ex_truthy (v : Qc) : bool := negb (Qc_eq_bool v q0).     (* `if self._length_info['length']:` *)
-Definition ex_seg_length (tb : Table) : Seg -> Tol -> Seg * Qc :=
-  seg_length P_eqb Pay_eqb tol_reuse (lookup tb).
-Fixpoint seg_check (tb : Table) (g : Seg) (ops : list sop) (obs : list Qc) (i : nat) : nat :=
+Definition ex_seg_length (fx : fixes) (tb : Table) : Seg -> Tol -> Seg * Qc :=
+  seg_length fx P_eqb Pay_eqb (tol_reuse fx) tol_eqb (lookup tb).
+Definition ex_reversed (fx : fixes) : Seg -> Seg * Seg := seg_reversed fx P_eqb Pay_eqb ex_rev_data ex_truthy.
+Fixpoint seg_check (fx : fixes) (tb : Table) (g : Seg) (ops : list sop) (obs : list Qc) (i : nat) : nat :=
   match ops with
   | [] => match obs with [] => 0 | _ => 6 end
   | SLength t :: r =>
       match obs with
-      | o :: obs' => let '(g', v) := ex_seg_length tb g t in
-                     if Qc_eq_bool v o then seg_check tb g' r obs' (S i) else 100 + i
+      | o :: obs' => let '(g', v) := ex_seg_length fx tb g t in
+                     if Qc_eq_bool v o then seg_check fx tb g' r obs' (S i) else 100 + i
       | [] => 6
       end
-  | SStart z :: r => seg_check tb (with_start g z) r obs (S i)
-  | SC1 z :: r => seg_check tb (with_c1 g z) r obs (S i)
-  | SEnd z :: r => seg_check tb (with_end g z) r obs (S i)
-  | SRev :: r => seg_check tb (snd (seg_reversed ex_rev_data ex_truthy g)) r obs (S i)
-  | SRevKeep :: r => seg_check tb (fst (seg_reversed ex_rev_data ex_truthy g)) r obs (S i)
+  | SStart z :: r => seg_check fx tb (with_start g z) r obs (S i)
+  | SC1 z :: r => seg_check fx tb (with_c1 g z) r obs (S i)
+  | SEnd z :: r => seg_check fx tb (with_end g z) r obs (S i)
+  | SRev :: r => seg_check fx tb (snd (ex_reversed fx g)) r obs (S i)
+  | SRevKeep :: r => seg_check fx tb (fst (ex_reversed fx g)) r obs (S i)
   end.
 Definition segcasety : Type := (SD * list sop * list Qc)%type.
-Definition check_seg_case (tb : Table) (c : segcasety) : nat :=
-  let '(d, ops, obs) := c in seg_check tb (fresh_seg d) ops obs 0.
+Definition check_seg_case (fx : fixes) (tb : Table) (c : segcasety) : nat :=
+  let '(d, ops, obs) := c in seg_check fx tb (fresh_seg d) ops obs 0.
